@@ -303,6 +303,19 @@ class Flow:
     def call_at(self, bb):
         return self.b.blocks[bb].term
 
+    def copies_of(self, local):
+        """locals that hold a plain copy / move of `local` (a closure bound to a variable is copied
+        into the adaptor call through such temporaries)"""
+        out = {local}
+        changed = True
+        while changed:
+            changed = False
+            for s in self.b.stmts():
+                if s.k == "assign" and not s.lhs.proj and s.rv is not None and s.rv.k == "use" and s.rv.ops and s.rv.ops[0].place is not None and not s.rv.ops[0].place.proj and s.rv.ops[0].place.local in out and s.lhs.local not in out:
+                    out.add(s.lhs.local)
+                    changed = True
+        return out
+
     def slice_local(self, starts, data_only=False):
         """intra-procedural backward slice: set of nodes reachable from `starts`"""
         dep = self.dep()
@@ -381,6 +394,12 @@ class Flow:
                 return ("const", s)
             return ("?",)
         p = op.place
+        if len(p.proj) == 1 and isinstance(p.proj[0], dict) and "f" in p.proj[0] and self.b.local_name(p.local) is None and depth > 0:
+            # `match (a, b) { .. }` tests fields of a tuple built just before: describe the component
+            d = self.single_def(p.local)
+            rv = getattr(d, "rv", None) if d is not None else None
+            if rv is not None and rv.k == "aggr" and rv.j.get("ak") == "tuple" and str(p.proj[0]["f"]).isdigit() and int(p.proj[0]["f"]) < len(rv.ops):
+                return self.describe(rv.ops[int(p.proj[0]["f"])], depth - 1)
         if p.proj or self.b.local_name(p.local) is not None or depth <= 0:
             if not p.proj and self.b.local_name(p.local) is None:
                 return ("tmp", p.local)
@@ -388,6 +407,10 @@ class Flow:
         d = self.single_def(p.local)
         if d is None:
             return ("tmp", p.local)
+        return self.describe_def(d, depth)
+
+    def describe_def(self, d, depth=4):
+        """description of the value a given definition (assignment or call terminator) produces"""
         if getattr(d, "k", None) == "call":
             nm = d.callee.short if d.callee else "<indirect>"
             return ("call", nm, tuple(self.describe(a, depth - 1) for a in d.args))
@@ -431,10 +454,47 @@ class Flow:
                         return c["s"]
         return None
 
+    # an atom id is a switch block index, or ("def", bb, idx) for the non-constant definition of a
+    # named boolean (Body.implied_edges); these helpers serve both
+    def atom_block(self, a):
+        return a[1] if isinstance(a, tuple) else a
+
+    def atom_def(self, a):
+        """the statement / call terminator that computes the tested value, if it is a single one"""
+        if isinstance(a, tuple):
+            blk = self.b.blocks[a[1]]
+            return blk.term if a[2] == "term" else blk.stmts[a[2]]
+        t = self.b.blocks[a].term
+        if t.k != "switch" or t.discr.place is None:
+            return None
+        return self.single_def(t.discr.place.local)
+
+    def atom_reads(self, a):
+        if isinstance(a, tuple):
+            d = self.atom_def(a)
+            rv = getattr(d, "rv", None)
+            out = set()
+            for o in (rv.ops if rv is not None else d.args):
+                out |= self._op_reads(o)
+            return out
+        return self._op_reads(self.b.blocks[a].term.discr)
+
+    def atom_span(self, a):
+        d = self.atom_def(a) if isinstance(a, tuple) else self.b.blocks[a].term
+        return d.span if d is not None else None
+
     def atom(self, bb):
         """what the switch at the end of block bb tests"""
         if bb in self._atoms:
             return self._atoms[bb]
+        if isinstance(bb, tuple):
+            # synthetic atom: the non-constant definition of a named boolean (see Body.implied_edges)
+            _, dbb, idx = bb
+            blk = self.b.blocks[dbb]
+            test = self.describe_def(blk.term if idx == "term" else blk.stmts[idx], depth=10)
+            a = {"bb": bb, "test": test, "targets": [(0, "F")], "otherwise": "T", "ty": "bool", "synthetic": True}
+            self._atoms[bb] = a
+            return a
         t = self.b.blocks[bb].term
         a = None
         if t.k == "switch":
@@ -494,6 +554,9 @@ def desc_mentions(d, pred):
     return False
 
 
+SELECTOR_CALLS = ("filter", "take_while", "skip_while", "retain", "find", "position", "any", "all", "skip", "take", "step_by")
+
+
 class Flows:
     """cache of per-body Flow objects + inter-procedural slicing"""
 
@@ -534,13 +597,14 @@ class Flows:
                 out.append((parent, s))
         return out
 
-    def slice(self, path, starts, up=True, down=True, max_nodes=400000, data_only=False, roots=(), skip_captures=False, sw_filter=None, max_stack=3):
+    def slice(self, path, starts, up=True, down=True, max_nodes=400000, data_only=False, roots=(), skip_captures=False, sw_filter=None, max_stack=3, value_only=False, skip_selectors=False):
         """inter-procedural backward slice with call-string contexts.
         returns set of (body_path, node).  `down`: True = descend from a local call into the
         callee's return value and from closure values into closure bodies; "clos" = closures only.
         `up`: from a parameter continue at the call sites -- at the call site we descended from if we
         came down (realizable paths only), otherwise at every caller / closure creation site, unless
-        the body is in `roots`."""
+        the body is in `roots`.  `value_only`: follow control dependence only where it selects between
+        several definitions (what the value IS, not whether the statement runs)."""
         seen = set()
         work = [(path, n, ()) for n in starts]
         prog = self.prog
@@ -557,11 +621,32 @@ class Flows:
             fl = self.of(bp)
             b = fl.b
             is_clos_val = skip_captures and n[0] == "L" and n[1] in fl.closure_locals
+            sel_allowed = None
+            if skip_selectors and n[0] == "CALL":
+                # PROVENANCE of the elements: filter/take_while/... only select among the receiver's
+                # elements; what the predicate reads does not become part of the result
+                t_ = b.blocks[n[1]].term
+                if t_.callee and t_.callee.short.split("::")[-1] in SELECTOR_CALLS and t_.args:
+                    sel_allowed = fl._op_reads(t_.args[0])
             for m in fl.dep().get(n, ()):
+                if sel_allowed is not None and m[0] != "SW" and m not in sel_allowed:
+                    continue
                 if data_only and m[0] == "SW":
                     continue
                 if sw_filter is not None and m[0] == "SW" and not stack and not sw_filter(bp, m[1]):
                     continue
+                if value_only and m[0] == "SW":
+                    # VALUE dependence: a branch decides a value only by selecting among several
+                    # definitions of a local (or writes to memory); the conditions under which a
+                    # single definition / a call / another branch executes at all do not
+                    if n[0] == "SW":
+                        continue
+                    if n[0] == "CALL":
+                        dl = b.blocks[n[1]].term.dest
+                        if dl.has_deref() or len(b.assigns_to(dl.local)) <= 1:
+                            continue
+                    if n[0] == "L" and isinstance(n[1], int) and len(b.assigns_to(n[1])) <= 1:
+                        continue
                 if is_clos_val and m[0] != "CLOS":
                     continue  # captures are reached through the closure body's upvar reads
                 work.append((bp, m, stack))
@@ -624,11 +709,11 @@ class Flows:
                                     for r in pf._op_reads(o):
                                         work.append((pp, r, stack[:-1]))
                         else:
-                            cl = s_.lhs.local
+                            cl = pf.copies_of(s_.lhs.local)
                             for t in pf.b.calls():
-                                if any(a.place is not None and a.place.local == cl for a in t.args):
+                                if any(a.place is not None and a.place.local in cl for a in t.args):
                                     for a in t.args:
-                                        if a.place is not None and a.place.local == cl:
+                                        if a.place is not None and a.place.local in cl:
                                             continue
                                         for r in pf._op_reads(a):
                                             work.append((pp, r, stack[:-1]))
@@ -647,11 +732,11 @@ class Flows:
                         # from the adaptor's other arguments (its receiver), not from the closure itself
                         for (pp, s_) in self.closure_sites(bp):
                             pf = self.of(pp)
-                            cl = s_.lhs.local
+                            cl = pf.copies_of(s_.lhs.local)
                             for t in pf.b.calls():
-                                if any(a.place is not None and a.place.local == cl for a in t.args):
+                                if any(a.place is not None and a.place.local in cl for a in t.args):
                                     for a in t.args:
-                                        if a.place is not None and a.place.local == cl:
+                                        if a.place is not None and a.place.local in cl:
                                             continue
                                         for r in pf._op_reads(a):
                                             work.append((pp, r, ()))
